@@ -14,6 +14,7 @@ mod c04;
 mod c05;
 mod c09;
 mod c11;
+mod c11x;
 mod c15;
 mod c18;
 mod c19;
